@@ -81,13 +81,28 @@ def gen(ctx):
         if expr.startswith("-") or expr == "":
             mode = "efile" if mode == "pos" else mode      # a leading '-' would be taken as a flag by clap; empty positional is fine via file
         cases.append((mode, expr, flags or "-", ik, doc))
+    # string results at the edges of what printing can get wrong: strings that END in (or consist of) line breaks, carriage returns, spaces; strings that
+    # look like JSON; empty; very long — with and without --unquoted, from stdin and from a file
+    edge = ["line\n", "dos\r\n", "\n", "\n\n", "a\n\nb\n", "\r", " ", "  trailing  ", "\t", "", "\"quoted\"", "{\"a\": 1}", "[1]", "null", "1", "-", "--unquoted", "é\n", "😀",
+            "x" * 5000 + "\n", "\u0000", "\u001b[0m", "a\u2028b"]
+    for sv in edge:
+        for fl in ("u", "-"):
+            for ikk in ("stdin", "file"):
+                cases.append(("pos", "@", fl, ikk, json.dumps(sv)))
+            cases.append(("pos", "a", fl, "stdin", json.dumps({"a": sv})))
+            cases.append(("efile", "join('', [a, a])", fl, "stdin", json.dumps({"a": sv})))
+    # trailing content after a complete JSON value is not JSON (stdin and file alike)
+    for tail in [" garbage", "{}", "]", ",", " 1", "\n\n[", "\u0000", " //c"]:
+        for ikk in ("stdin", "file"):
+            cases.append(("pos", "@", "-", ikk, "{\"a\": 1}" + tail))
+            cases.append(("pos", "a", "u", ikk, "[1,2,3]" + tail))
     return cases
 
 
 def rand_json(rng, depth):
     r = rng.random()
     if depth <= 0 or r < 0.3:
-        return rng.choice([None, True, False, 0, 1, -2, 1.5, "a", "é😀", "", 10 ** 20, 0.1, "say \"hi\"", "back\\slash", "line\nbreak\ttab", "\u0001ctl", "\"", "\\", "a b"])
+        return rng.choice([None, True, False, 0, 1, -2, 1.5, "a", "é😀", "", 10 ** 20, 0.1, "say \"hi\"", "back\\slash", "line\nbreak\ttab", "ends with newline\n", "crlf\r\n", "\n", "\u0001ctl", "\"", "\\", "a b"])
     if r < 0.65:
         return [rand_json(rng, depth - 1) for _ in range(rng.randrange(0, 4))]
     return {rng.choice(G.IDENTS[:8]): rand_json(rng, depth - 1) for _ in range(rng.randrange(0, 4))}
